@@ -22,6 +22,22 @@ SPECIAL_FILES = ["hg:hg.mozilla.org/mozilla-central:widget/cocoa/nsAppShell.mm:9
                  # names with '.' and '..' components, as compilers record them (build/../gcc/libgcc/unwind.c): reported verbatim, accepted verbatim
                  "/src/build/../lib/theta.c", "../rel/./iota.c", "C:\\win\\..\\kappa.c"]
 
+MAPPED_C = """
+#line 10 "/rustc/c8dfcfe046a7680554bf4eb612bad840e7631c4b/library/core/src/ops/function.rs"
+static inline __attribute__((always_inline)) int inl_core(int x) { x = x * 3 + 1;
+  return x ^ (x >> 3); }
+#line 20 "/home/u/.cargo/registry/src/index.crates.io-6f17d22bba15001f/demo-dep-1.2.3/src/lib.rs"
+static inline __attribute__((always_inline)) int inl_dep(int x) { x = inl_core(x) ^ 5;
+  return x * 7; }
+#line 5 "/src/mapped/main.c"
+int mapped_a(int x) { x = inl_dep(x) + 2;
+  return x * x; }
+int mapped_b(int x) { x = inl_core(x) - 2;
+  return x + 9; }
+#line 40 "/home/u/.cargo/registry/src/index.crates.io-6f17d22bba15001f/demo-dep-1.2.3/src/other.rs"
+int mapped_c(int x) { return x * 11 + 3; }
+"""
+
 GEN_MODULES = [("genmod1.so", "AAAA0000BBBB1111CCCC2222DDDD33330"), ("genmod2", "0123456789ABCDEF0123456789ABCDEF1"),
                ("genmod3.so", "0F0E0D0C0B0A090807060504030201002"),
                # legal breakpad ids that are not 33 characters long: an age above 0xf (34 and 35 characters) and the PDB 2.0 form (8-digit timestamp + age)
@@ -165,6 +181,7 @@ class Env:
             for s in ss[:60]:
                 offs += [s, s + 1, s + 7]
             self.modules.append({"debugName": h[1], "breakpadId": h[2], "offsets": offs + [0, 3, 0xFFFFFFF0], "kind": "fixture"})
+        self._add_mapped_elf()
         for v, (name, bid) in enumerate(GEN_MODULES):
             text, offsets = _gen_sym(name, bid, v)
             p = os.path.join(self.dir, name, canon_id(bid), (name[:-4] if name.endswith(".pdb") else name) + ".sym")
@@ -191,6 +208,39 @@ class Env:
         rc, outl, err = K.run_lines(self.bin, ["src"], probe)
         if rc != 0 or len(outl) != len(probe) or any(not _json.loads(l).get("load") for l in outl):
             raise K.TieBroken("a generated Breakpad module does not load through the symbol manager: %s" % [l[:160] for l in outl if not _json.loads(l).get("load")][:2])
+
+    def _add_mapped_elf(self):
+        """an ELF shared object with DWARF whose line tables name files under /rustc/<revision>/ and under a cargo registry: the API reports such files by
+        their special-path spelling (git:... / cargo:...), which differs from the raw debug-info path that has to be read.  Built with gcc; left out
+        when that fails."""
+        import subprocess
+        src = os.path.join(self.dir, "_mapped.c")
+        open(src, "w").write(MAPPED_C)
+        so = os.path.join(self.dir, "mapped.so")
+        try:
+            r = subprocess.run(["gcc", "-g", "-O1", "-shared", "-fPIC", "-Wl,--build-id=sha1", "-o", so, src], capture_output=True, timeout=120)
+        except Exception:
+            return
+        finally:
+            try:
+                os.remove(src)
+            except OSError:
+                pass
+        if r.returncode != 0 or not os.path.exists(so):
+            return
+        rc, outl, err = K.run_lines(self.bin, ["info"], ["%s %s" % (self.dir, "mapped.so")])
+        if rc != 0 or not outl or outl[0].startswith("ERR") or "|" not in outl[0]:
+            os.remove(so)
+            return
+        head, syms = outl[0].split("|")
+        h = head.split()
+        if len(h) < 4:
+            os.remove(so)
+            return
+        offs = []
+        for s_ in [int(x) for x in syms.split()][:40]:
+            offs += [s_ + d for d in (0, 1, 2, 4, 6, 8, 11, 14, 18)]
+        self.modules.append({"debugName": h[1], "breakpadId": h[2], "offsets": offs + [0, 3], "kind": "fixture"})
 
     def tmpfile(self, content):
         self.n += 1
